@@ -122,14 +122,29 @@ def caseReady (chans : Nat → Chan) : SelCase → Bool
   | .send ch v => (push (chans ch) v).1 != .block
   | .dflt => false
 
-/-- outcome of executing the chosen case `i` as coded today:
-* a receive from an open channel yields the value;
-* a receive from a closed drained channel yields an error result — with the *push* message
-  (`ChannelClosedPushError`; the two messages are swapped in `opSelect`);
-* a send to a closed channel is a Go panic out of `reflect.Select` ("send on closed channel"),
-  nothing recovers it;
+/-- outcome of executing the chosen case `i` (`opSelect` after the two `fix: select …` commits):
+* a receive from an open channel yields the value, from a closed drained channel an error result with
+  the *pop* error (before the fix: the push error, the two constants were swapped);
+* a send to a closed channel raises the push error (before the fix: the Go panic "send on closed
+  channel" out of `reflect.Select` crashed the program — `selectOutcomeBeforeFix`);
 * `else` is taken only when no other case is ready. -/
 def selectOutcome (chans : Nat → Chan) (cases : List SelCase) (i : Nat) : Option Out :=
+  match cases[i]? with
+  | none => none
+  | some .dflt => if cases.any (caseReady chans) then none else some .ok
+  | some (.recv ch) =>
+    match pop (chans ch) with
+    | (.val v, _) => some (.val v)
+    | (.errClosedPop, _) => some .errClosedPop
+    | _ => none
+  | some (.send ch v) =>
+    match push (chans ch) v with
+    | (.ok, _) => some .ok
+    | (.errClosedPush, _) => some .errClosedPush
+    | _ => none
+
+/-- `opSelect` as it was before the fixes (for the record; not used by the driver) -/
+def selectOutcomeBeforeFix (chans : Nat → Chan) (cases : List SelCase) (i : Nat) : Option Out :=
   match cases[i]? with
   | none => none
   | some .dflt => if cases.any (caseReady chans) then none else some .ok
